@@ -422,6 +422,35 @@ def check_case(ctx, case, upath, rng):
                     ctx.cell("route:refused-assignment")
                 if not judge_state(ctx, case, cfgd, cfg, unode, U, u, shadow, viol, f"after-refused-assignment:{mf['name']}"):
                     break
+            if (fj is None and mt["k"] == "array" and mt["len"].get("f") == "fixed" and mt["len"]["n"] >= 2 and mt["elem"]["k"] == "int"
+                    and U.size is not None and rng.random() < 0.3):
+                # a list whose first entries are fine and whose last one does not fit: refused, and whatever was encoded
+                # before the refusal went nowhere -- neither now nor with the next (narrower) assignment
+                try:
+                    okv = model.random_value(mt, rng, cfg)
+                    badlist = [x ^ 0x5A if 0 <= x ^ 0x5A < 128 else 1 for x in model.clean(okv)][:-1] + [1 << (8 * model.size_of(mt["elem"], cfg))]
+                    setattr(u, lf._name, badlist)
+                    viol("assign", "out-of-range-assignment-to-a-union-member-accepted", member=mf["name"], value=badlist)
+                    break
+                except Exception:  # noqa: BLE001
+                    ctx.event("refused_assignments")
+                    ctx.cell("route:refused-array-assignment")
+                if not judge_state(ctx, case, cfgd, cfg, unode, U, u, shadow, viol, f"after-refused-array-assignment:{mf['name']}"):
+                    break
+            if U.size is not None and rng.random() < 0.15:
+                # a shallow copy that is assigned to afterwards: the original keeps its bytes (now and after its next assignment)
+                import copy as _copy
+
+                try:
+                    twin = _copy.copy(u)
+                    tf = rng.choice([f for f in U.__fields__ if f.name])
+                    tn = unode["fields"][U.__fields__.index(tf)]["t"]
+                    setattr(twin, tf._name, lib.build(tf.type, tn, model.random_value(tn, rng, cfg)))
+                    ctx.cell("route:copy-assigned")
+                except Exception:  # noqa: BLE001
+                    ctx.event("copy_assignment_not_possible")
+                if not judge_state(ctx, case, cfgd, cfg, unode, U, u, shadow, viol, "after-a-shallow-copy-was-assigned-to"):
+                    break
             try:
                 if fj is None:
                     newv = model.random_value(mt, rng, cfg)
